@@ -41,16 +41,35 @@ func newIdxLocks(c *Ctx) *idxLocks {
 // apply-goroutine-only functions: the snapshot writer and reader of the index run on the raft apply
 // goroutine, the only writer (C04.R2 checks that fact).
 func (x *idxLocks) applyOnly(f *ssa.Function) bool {
-	if f.Signature.Recv() == nil || namedOf(f.Signature.Recv().Type()) != x.hnsw {
+	takesStream := func(g *ssa.Function) bool {
+		for _, p := range g.Params {
+			if n := namedOf(p.Type()); n != nil && n.Obj().Pkg() != nil && n.Obj().Pkg().Path() == "io" && (n.Obj().Name() == "Writer" || n.Obj().Name() == "Reader") {
+				return true
+			}
+		}
 		return false
 	}
-	// role: takes an io.Writer or io.Reader
-	for _, p := range f.Params[1:] {
-		if n := namedOf(p.Type()); n != nil && n.Obj().Pkg() != nil && n.Obj().Pkg().Path() == "io" && (n.Obj().Name() == "Writer" || n.Obj().Name() == "Reader") {
-			return true
-		}
+	if f.Signature.Recv() != nil && namedOf(f.Signature.Recv().Type()) == x.hnsw {
+		// role: a method of the index that takes an io.Writer or io.Reader
+		return len(f.Params) > 1 && takesStream(f)
 	}
-	return false
+	// a part of the writer / reader moved into a function of its own (saveVertexEdges(w, vertex)): it takes the stream and
+	// is called by nothing but stream functions of the index
+	if f.Parent() != nil || !takesStream(f) {
+		return false
+	}
+	sites, ok := 0, true
+	for _, g := range x.funcs {
+		eachInstr(g, func(i ssa.Instruction) {
+			if cc := asCall(i); cc != nil && cc.StaticCallee() == f {
+				sites++
+				if !takesStream(rootFn(g)) {
+					ok = false
+				}
+			}
+		})
+	}
+	return sites > 0 && ok
 }
 
 // checkGuardedMaps emits one obligation per map operation on a guarded field (`which`).
@@ -184,6 +203,7 @@ func fieldStoresIn(f *ssa.Function, fld *types.Var) []*ssa.Store {
 
 func checkC02(c *Ctx, r *Report, tier string) {
 	round5(c, r, "C02")
+	round6(c, r, "C02")
 	x := newIdxLocks(c)
 	r.Rule("C02.R1", "shard-lock discipline: every operation on a shard map of the index happens with the mutex paired with it must-held (write lock for writes)", 4)
 	r.Rule("C02.R2", "insert-if-absent / delete-if-present: every insertion into a shard map is guarded by the absent polarity of a lookup of the same key in the same map, every deletion by the present polarity, in the same critical section", 2)
